@@ -13,8 +13,8 @@
    * each *_measure_from_* and *_convert_from_* is its own pass; each public
      wrapper spells out assert / measure / return on 0 / allocate / convert / raise.
 
-   Repaired behaviour modelled (fix commit in /repo): utf16_convert_from_utf8
-   treats a write_utf16 failure like a decode error.                           *)
+   utf16_convert_from_utf8 is the version of fix commit b1ca115 (a write_utf16
+   failure is treated like a decode error).                                    *)
 From Coq Require Import NArith List Bool.
 From ST Require Import Base.Outcome Base.Units Gen.Consts Utf.Spec.
 Import ListNotations.
@@ -337,16 +337,14 @@ Definition utf8_convert_from_latin_1 (d : dst) (astr : list N) : outcome (cerr *
 Definition utf16_measure_from_utf8 (utf8 : option (list N)) : outcome nat :=
   measure_walk (fun s n => '(ch, rest) <- extract_utf8 s ;; Ok (Continue rest (utf16_measure ch + n)%nat)) utf8.
 
-(* REPAIRED behaviour: write_utf16 failing (value above 0x10FFFF) is handled like a decode error *)
+(* a decoded value above 0x10FFFF (4-byte form) makes write_utf16 fail: handled like a decode error *)
 Definition utf16_convert_from_utf8 (d : dst) (utf8 : list N) (m : vmode) : outcome (cerr * dst) :=
   walk (fun s d =>
           '(bigch, rest) <- extract_utf8 s ;;
           let error := char_error bigch in
+          '(error, d) <- (if negb (is_error error) then write_utf16 d bigch else Ok (error, d)) ;;
           if is_error error then on_error16 m error rest d
-          else
-            '(e2, d') <- write_utf16 d bigch ;;
-            if is_error e2 then on_error16 m e2 rest d'
-            else Ok (Continue rest d'))
+          else Ok (Continue rest d))
        (S (length utf8)) utf8 d.
 
 (* ----------------------------------------------------- UTF-16 from UTF-32 (478-508) *)
